@@ -16,6 +16,7 @@ let () =
   | _ :: "typing" :: _ -> L_eval.run_typing ()
   | _ :: "strat" :: _ -> L_eval.run_strat ()
   | _ :: "doc" :: _ -> L_eval.run_doc ()
+  | _ :: "docbase" :: _ -> L_eval.run_doc_base ()
   | _ :: "lex" :: _ -> L_lex.run ()
   | _ ->
       prerr_endline "usage: oalmodel <layer>";
